@@ -45,7 +45,7 @@ def attempt_spec(run):
         return "refused", (None, None)
     spec = {"timeline": [], "default_pong": 0.01}
     if kind == "reject":
-        spec["handshake"] = ["status", end.get("status", 403)]
+        spec["handshake"] = ["status", end.get("status", 403)] + (list(end["body"]) if end.get("body") else [])
         return spec, (None, None)
     t = 0.0
     for dt, specs in run.get("traffic", []):
@@ -283,6 +283,9 @@ def ending(draw):
         e["bad"] = draw(st.sampled_from([b"\xc1\x00", b"\x83\x00", b"\x80\x00", b"\x09\x00", b"\x88\x01\x00", b"\x88\x02\x00\x00", b"\x89\x7e\x00\x7e" + b"x" * 126]))
     elif kind == "reject":
         e["status"] = draw(st.sampled_from([400, 403, 404, 500, 503, 200]))
+        if draw(st.booleans()):
+            # an error body: complete, cut short by the end of the stream, or announced but never sent
+            e["body"] = draw(st.sampled_from([[5, b"sorry"], [500, b"sorry"], [70000, b"x" * 100], [12, b""], [20000, b"y" * 20000]]))
     elif kind == "own-close":
         e["in"] = draw(st.sampled_from(CBS))
         if e["in"] in TRIG:
